@@ -29,6 +29,9 @@ def check_and_persist_dask_input(data, persist=True):
 def array_to_delayed_list(data, input_is_dask):
     # If input is a dask array, convert to delayed chunks
     if input_is_dask:
+        if data.ndim > 1 and data.numblocks[-1] > 1:
+            # Each block must hold complete samples (all the features)
+            data = data.rechunk({data.ndim - 1: -1})
         data = data.to_delayed().ravel().tolist()
         logger.debug(f"Got {len(data)} chunks.")
     return data
